@@ -127,14 +127,14 @@ def determinism(props: List[str], seed: int, n: int = 40) -> int:
         except ImportError:
             continue
         idx = list(range(min(n, prop.total("quick"))))
-        a = [runner.safe_execute(prop, prop.plan_for("quick", seed, i)).get("digest") for i in idx]
-        b = [runner.safe_execute(prop, prop.plan_for("quick", seed, i)).get("digest") for i in idx]
+        a = [runner.safe_execute(prop, runner.make_plan(prop, "quick", seed, i)).get("digest") for i in idx]
+        b = [runner.safe_execute(prop, runner.make_plan(prop, "quick", seed, i)).get("digest") for i in idx]
         if a != b:
             print("FAIL: %s differs between two in-process executions" % pid)
             fails += 1
         for hs in ("0", "12345"):
             code = ("import sys; sys.path.insert(0, %r)\nfrom sim import runner\np = runner.load_prop(%r)\n"
-                    "print(','.join(runner.safe_execute(p, p.plan_for('quick', %d, i)).get('digest') for i in %r))"
+                    "print(','.join(runner.safe_execute(p, runner.make_plan(p, 'quick', %d, i)).get('digest') for i in %r))"
                     % (os.path.dirname(os.path.dirname(os.path.abspath(__file__))), pid, seed, idx))
             env = dict(os.environ, PYTHONHASHSEED=hs)
             out = subprocess.run([sys.executable, "-c", code], env=env, capture_output=True, text=True, timeout=600)
